@@ -706,3 +706,12 @@ _OLD_PD = "        pad = lambda x: np.pad(x, (0, max_len - x.shape[0]), constant
 for _p, _r in (("C10", "R-C10-sentinel"), ("C19", "R-C19-sentinel")):
     B(_p, BASE, _OLD_PD, "        pad = lambda x: np.pad(x, (0, max_len - x.shape[0]), constant_values=0)", _r)
     P(_p, BASE, _OLD_PD, "        pad = lambda x: np.pad(x, (max_len - x.shape[0], 0), constant_values=-1)")
+# add_to_group extends an existing group; the rank converter as cumcount
+_OLD_AG = "        if group_name not in self.base.groups:\n            self.base.groups[group_name] = self._nodes_in_view\n        else:\n            self.base.groups[group_name] = np.unique(\n                np.concatenate([self.base.groups[group_name], self._nodes_in_view])\n            )"
+for _p, _r in (("C11", "R-C11-groups"), ("C19", "R-C19-groups")):
+    B(_p, BASE, _OLD_AG, "        self.base.groups[group_name] = self._nodes_in_view", _r)
+    P(_p, BASE, _OLD_AG, "        previous = self.base.groups.get(group_name, np.asarray([], dtype=int))\n        self.base.groups[group_name] = np.unique(\n            np.concatenate([previous, self._nodes_in_view])\n        )")
+_OLD_RK = '        ranks = self.base.edges.groupby("type").rank()["global_edge_index"]\n        return (ranks.astype(int) - 1).to_numpy()'
+for _p in ("C08", "C19", "C09"):
+    P(_p, BASE, _OLD_RK, '        return self.base.edges.groupby("type").cumcount().to_numpy()')
+B("C08", BASE, _OLD_RK, '        return (self.base.edges.groupby("type").cumcount() + 1).to_numpy()', "R-C08-space")
